@@ -11,6 +11,7 @@ import (
 	"net/http"
 	"os"
 	"path/filepath"
+	"regexp"
 	"strings"
 	"time"
 
@@ -130,6 +131,8 @@ func genC20(r *Rng, tier string, idx int) *Plan {
 	p.Ops = append(p.Ops, Op{ID: nid(), Kind: "probe"})
 	return p
 }
+
+var reRandomState = regexp.MustCompile(`state=[A-Za-z0-9]+`)
 
 type caEvent struct {
 	at      time.Time
@@ -550,7 +553,7 @@ func runC20(p *Plan) *Result {
 	}
 	res := w.result().only("C20")
 	res.Nontrivial = w.Probes["handshakes"] > 0
-	res.TraceHash = hash64(strings.Join(w.evlog, "\n"))
+	res.TraceHash = hash64(reRandomState.ReplaceAllString(strings.Join(w.evlog, "\n"), "state=*")) // (the service draws the state from crypto/rand)
 	res.Summary = fmt.Sprintf("inline=%d file=%v interval=%v skip=%v", inlineCA, caPath != "", interval, f.SkipVerify)
 	return res
 }
